@@ -123,6 +123,8 @@ pub struct Shared {
     pub manual: bool,
     /// scripted scenarios: the next write stalls (returns Pending once); the scenario decides how long
     pub stall_next_write: bool,
+    /// scripted scenarios: the next flush stalls (returns Pending once)
+    pub stall_next_flush: bool,
     pub keep_tx: bool,
     /// the most recent cancellation was forced (nothing else could happen), not a chosen deviation
     pub last_cancel_forced: bool,
@@ -285,6 +287,12 @@ impl Shared {
         self.conns[c].flushes += 1;
         if self.conns[c].closed {
             return Poll::Ready(Err(ErrorKind::BrokenPipe));
+        }
+        if self.stall_next_flush {
+            self.stall_next_flush = false;
+            self.log(|| format!("  io c{} flush stalls", c));
+            self.pending = Pend::Chosen;
+            return Poll::Pending;
         }
         let mut opts = vec![0u8];
         if self.explore() {
@@ -1757,11 +1765,27 @@ impl<'v> World<'v> {
             OpK::Disconnect => {
                 // rich families: also a DISCONNECT with a reason and properties (encoded in the arena tail)
                 let with_props = self.cfg.big_connect && self.decide_arg(2) == 1;
-                self.log(|| format!("api: disconnect{}", if with_props { " (with reason string and user property)" } else { "" }));
+                let illegal = self.cfg.disc_illegal && !with_props && self.decide_arg(2) == 1;
+                self.log(|| {
+                    format!(
+                        "api: disconnect{}",
+                        if with_props {
+                            " (with reason string and user property)"
+                        } else if illegal {
+                            " (with a property that is not legal on a DISCONNECT)"
+                        } else {
+                            ""
+                        }
+                    )
+                });
                 self.sh.borrow_mut().oracle.op_begin("disconnect", None);
                 let disc_props = [Property::ReasonString("closing for maintenance"), Property::UserProperty("k", "v")];
+                let bad_props = [Property::PayloadFormatIndicator(1)];
                 let r = if with_props {
                     let d = minimq::Disconnect::with_reason(minimq::ReasonCode::DisconnectWithWill).with_properties(&disc_props);
+                    self.drive(conn.disconnect_with(d), Some(id), true)
+                } else if illegal {
+                    let d = minimq::Disconnect::success().with_properties(&bad_props);
                     self.drive(conn.disconnect_with(d), Some(id), true)
                 } else {
                     self.drive(conn.disconnect(), Some(id), true)
@@ -2273,6 +2297,7 @@ pub fn run_inner(
         env_steps: 0,
         manual: false,
         stall_next_write: false,
+        stall_next_flush: false,
         keep_tx: cfg.twin.is_some() || script.is_some(),
         last_cancel_forced: false,
         held: Vec::new(),
